@@ -255,9 +255,16 @@ fn conv_t<const S: usize>(t: usize, ver: u64, codec: u64, code: u64, digest: &[u
         63 => conv_st::<S, 63>(ver, codec, code, digest),
         64 => conv_st::<S, 64>(ver, codec, code, digest),
         128 => conv_st::<S, 128>(ver, codec, code, digest),
+        // target capacities around and above 255 (`Multihash::size()` is a `u8`, a capacity is a `usize`)
+        255 => conv_st::<S, 255>(ver, codec, code, digest),
+        256 => conv_st::<S, 256>(ver, codec, code, digest),
+        300 => conv_st::<S, 300>(ver, codec, code, digest),
         _ => "bad-size".into(),
     }
 }
+
+/// target capacities tried besides `CONV_SIZES`
+pub const CONV_BIG_TARGETS: [usize; 3] = [255, 256, 300];
 
 pub const CONV_SIZES: [usize; 11] = [0, 1, 16, 20, 31, 32, 33, 48, 63, 64, 128];
 
